@@ -6,6 +6,7 @@ import (
 	"encoding/json"
 	"os"
 	"runtime"
+	"strconv"
 	"testing"
 
 	"verif/litmus/progs"
@@ -35,6 +36,9 @@ func TestNative(t *testing.T) {
 		}
 		seen := map[string]int{}
 		n := 1500
+		if v, err := strconv.Atoi(os.Getenv("LITMUS_N")); err == nil && v > 0 {
+			n = v
+		}
 		for i := 0; i < n; i++ {
 			if i%3 == 0 {
 				runtime.Gosched()
